@@ -119,22 +119,15 @@ def run(tier):
         if family == "7":
             sample = res[len(res) // 2]
             check.sample({"direction": "spec->impl", "src": sample[1]["src"], "variants_used": sample[0]["used"][:12]})
-        # exhaustive small expressions (precedence / associativity / casts / ternary on combinations)
-        mc = 6 if tier == "quick" else 7
-        table, behs = syntax.generate(check, family, rootcat="stmt", rootmax=1, depth=4, allowed=exprset(table),
-                                      exhaustive=True, maxchoices=mc, timeout=1500)
+        # exhaustive small expressions (precedence / associativity / casts / ternary on combinations).  quick: every pair and
+        # chain of three operators with variables as the only atoms (precedence and associativity are decided on pairs);
+        # thorough: the same with numbers and names as atoms too
+        allowed = exprset(table) if tier == "thorough" else [i for i in exprset(table) if i != "ScalarLnumber"]
+        table, behs = syntax.generate(check, family, rootcat="stmt", rootmax=1, depth=4, allowed=allowed,
+                                      exhaustive=True, maxchoices=7, timeout=3000)
         res = progs.run_programs(check, wp, family, behs, table, core.seed(), ["none"], progs.VERS[family][:1])
         classify(check, res, table)
         check.cov["exhaustive_expressions_%s" % family] = len(behs)
-        if tier == "quick":
-            # every pair (and chain of three) of operators, with variables as the only atoms: precedence and
-            # associativity are decided on pairs, so the quick tier covers all of them too
-            pair = [i for i in exprset(table) if i != "ScalarLnumber"]
-            table, behs = syntax.generate(check, family, rootcat="stmt", rootmax=1, depth=4, allowed=pair,
-                                          exhaustive=True, maxchoices=7, timeout=1500)
-            res = progs.run_programs(check, wp, family, behs, table, core.seed(), ["none"], progs.VERS[family][:1])
-            classify(check, res, table)
-            check.cov["exhaustive_operator_pairs_%s" % family] = len(behs)
     check.cov["variants_never_generated"] = uncovered
     # version gating: PHP 7-only syntax must be reported under 5.x
     table, behs = syntax.generate(check, "7", num=n, seed=core.seed() + 7, depth=3)
@@ -153,6 +146,38 @@ def run(tier):
         if r.get("nerr", 0) == 0:
             check.violation({"class": "php7-only-syntax-accepted-by-php5", "variant": t["_u"][0]}, {"src": t["src"], "ver": "5.6", "php7_only": t["_u"]})
     check.cov["gating_programs"] = len(tasks)
+    # the flexible heredoc terminator (indented closing label, label followed by ',' or ')') exists from 7.3 on: accepted with
+    # the prescribed tree under 7.3 and 7.4 (and with no version given), reported under every older version
+    table, behs = syntax.generate(check, "73", num=150 if tier == "quick" else 1500, seed=core.seed() + 73, depth=2)
+    flex = {v["id"] for v in table["variants"] if v["fam"] == "73"}
+    ex = progs.expand_all(table, behs, core.seed(), ["none", "random"])
+    behs, ex = progs.drop_skipped(behs, ex)
+    tasks = []
+    for b, e in zip(behs, ex):
+        if not (flex & set(e["used"])) or ({"heredoc/empty", "nowdoc/empty"} & set(e["used"])):
+            continue
+        for var in e["variants"]:
+            for ver in ("7.3", "7.4", "nil"):
+                tasks.append({"op": "cmp_tree", "src": var["src"], "ver": ver, "exp": var["exp"], "_u": e["used"], "_accept": True})
+            for ver in ("7.2", "7.0", "7.1") if tier == "thorough" else ("7.2", "7.0"):
+                tasks.append({"op": "analyze", "src": var["src"], "ver": ver, "_u": e["used"], "_accept": False})
+    res = wp.run([{k: v for k, v in t.items() if not k.startswith("_")} for t in tasks])
+    for t, r in zip(tasks, res):
+        check.count()
+        check.distinct(("flex", t["src"], t["ver"]))
+        if r.get("panic") or r.get("hang") or r.get("crash"):
+            continue
+        if t["_accept"]:
+            if r.get("nerr", 1) > 0 or not r.get("root"):
+                check.violation({"class": "flexible-heredoc-rejected", "ver": t["ver"]}, {"src": t["src"], "ver": t["ver"], "errors": r.get("errs")})
+            else:
+                for f in r.get("fails") or []:
+                    if f["c"] in progs.STRUCT:
+                        check.violation({"class": f["c"], "kind": f.get("kind"), "slot": progs.slot_of(f["path"]), "family": "73", "got": None},
+                                        {"src": t["src"], "ver": t["ver"], "fail": f, "variants": t["_u"]})
+        elif r.get("nerr", 0) == 0:
+            check.violation({"class": "flexible-heredoc-accepted-before-7.3", "ver": t["ver"]}, {"src": t["src"], "ver": t["ver"]})
+    check.cov["flexible_heredoc_runs"] = len(tasks)
     # token ids prescribed by Lexer.tla
     lc = lexgen.cases(check, tier, rng)
     res = wp.run([{"op": "lex", "src": c["src"].decode("latin-1"), "ver": "7.4" if c["flex"] else "7.2"} for c in lc])
@@ -191,4 +216,4 @@ def run(tier):
     check.assumptions += ["Syntax.tla: my transcription of PHP's grammar by node kind and of the documented precedence table",
                           "expander vf/syntax.py (interprets the exported table), lexeme spellings, conservative Fuses rule"]
     return check.finish({"rule": "derivations of SyntaxGen.tla (sampled, depth 3) for both families x 2 layouts x versions; all expression "
-                                 "statements with a derivation of <= %d choices (exhaustive); distinct = (family, derivation, layout, version)" % mc})
+                                 "statements with a derivation of <= 7 choices (exhaustive; quick: variables as the only atoms); distinct = (family, derivation, layout, version)"})
